@@ -32,8 +32,13 @@ def encInit : St := ⟨MinI64, 0, 0, 255, 0⟩
 /-- `&xorIterator{t: math.MinInt64}` (fresh iterator: leading = trailing = 0). -/
 def decInit : St := ⟨MinI64, 0, 0, 0, 0⟩
 
-/-- `bits.LeadingZeros64`. -/
-def clz64 (d : Nat) : Nat := if d = 0 then 64 else 63 - d.log2
+/-- Bit length with fuel (structural, so that closed instances reduce in the kernel). -/
+def blenF : Nat → Nat → Nat
+  | 0, _ => 0
+  | f + 1, d => if d = 0 then 0 else blenF f (d / 2) + 1
+
+/-- `bits.LeadingZeros64` (for `d < 2^64`). -/
+def clz64 (d : Nat) : Nat := 64 - blenF 64 d
 
 def ctzF : Nat → Nat → Nat
   | 0, _ => 0
@@ -239,6 +244,14 @@ def Chunk.append (c : Chunk) (t : Int) (v : Nat) : Except Err Chunk :=
   else
     let r := encSample c.num c.app t v
     .ok ⟨c.num + 1, r.1.reverse ++ c.rbits, r.2⟩
+
+/-- Append a sequence through the chunk's appender. -/
+def Chunk.appendAll (c : Chunk) : List Sample → Except Err Chunk
+  | [] => .ok c
+  | (t, v) :: ss =>
+    match c.append t v with
+    | .error e => .error e
+    | .ok c' => c'.appendAll ss
 
 /--
   `chunkenc.FromData(EncXOR, bytes)` followed by `Appender()`: the appender state is rebuilt by iterating.
